@@ -1196,8 +1196,8 @@ def _bool_arms(t, neg):
 
 
 def _single_def(fn, l):
-    ds = [d for d in fn.defs.get(l, []) if d[0] in ('=', 'call')]
-    if len(ds) == 1:
+    ds = fn.defs.get(l, [])
+    if len(ds) == 1 and ds[0][0] in ('=', 'call'):
         return ds[0]
     return None
 
